@@ -981,6 +981,55 @@ func checkTypedFailures(c *Ctx, r *Report, pa *provAnalysis) {
 		r.Check(ok, "E4-typed", "signing boundary "+c.funcKey(f), c.pos(f.Pos()), why)
 	}
 	r.Floor("E4-typed", len(boundaries), 3)
+	// E4-wrap: on the signing paths an error that is formatted into a new one
+	// stays in the chain (%w): "%v" keeps only its text, and errors.Is/As no
+	// longer reach the signer's own error
+	scopeW := map[*ssa.Function]bool{}
+	for _, f := range boundaries {
+		for g := range c.Reach(f) {
+			if c.isModuleFunc(g) {
+				scopeW[g] = true
+			}
+		}
+	}
+	for _, fn := range c.ModFuncs {
+		if c.funcPkgPath(fn) == modPath+"/internal/sign" {
+			scopeW[fn] = true
+		}
+	}
+	nw := 0
+	for _, fn := range sortedFuncs(c, scopeW) {
+		perFn := 0
+		forEachInstr(fn, func(in ssa.Instruction) {
+			call, ok := in.(*ssa.Call)
+			if !ok || !calleeIs(call, "fmt", "", "Errorf") || len(call.Call.Args) < 2 {
+				return
+			}
+			format := constOrEmpty(call.Call.Args[0])
+			errArgs := 0
+			for _, e := range variadicElems(call.Call.Args[1]) {
+				v := e
+				if mi, ok := v.(*ssa.MakeInterface); ok {
+					v = mi.X
+				}
+				if ci, ok := v.(*ssa.ChangeInterface); ok {
+					v = ci.X
+				}
+				if types.Identical(v.Type(), errorType) {
+					errArgs++
+				}
+			}
+			if errArgs == 0 {
+				return
+			}
+			nw++
+			perFn++
+			wraps := strings.Count(format, "%w")
+			r.Check(wraps >= errArgs, "E4-wrap", fmt.Sprintf("%s: fmt.Errorf#%d keeps its error argument(s) in the chain", c.funcKey(fn), perFn), c.instrPos(call),
+				fmt.Sprintf("format %q has %d %%w verb(s) for %d error argument(s): an error formatted with another verb is flattened to text and cannot be inspected by the caller", format, wraps, errArgs))
+		})
+	}
+	r.Count("errorf_with_error_args_on_signing_paths", nw)
 	// the signature-member write failure in deb.Package is typed as well
 	if pk := c.PackagerByFormat("deb"); pk != nil {
 		for _, m := range arMembers(c, pk.Package) {
